@@ -3361,6 +3361,10 @@ def to_nx(
     for root in roots:
         if abs(root) not in bdd:
             raise ValueError(root)
+        if abs(root) in g:
+            # reached from a previous root,
+            # so its edges have been added
+            continue
         Q = {root}
         while Q:
             u = Q.pop()
